@@ -105,14 +105,17 @@ EveryMalformationIsRejected == (fold.err = "" /\ Len(lines) >= 1) =>
      /\ (lines[i].kind = "first" /\ i < Len(lines)) => lines[i + 1].kind = "last"
 
 Den(t) == [cp \in U |-> \E i \in 1..Len(t) : Contains(t[i], cp)]
+\* unassigned table: code points after the last listed one are "don't care" for conformance (the code omits that
+\* gap, an implementation that emits it is at least as right)
+DenUn(t) == [cp \in U |-> IF cp > last THEN "either" ELSE IF \E i \in 1..Len(t) : Contains(t[i], cp) THEN "yes" ELSE "no"]
 EmitErr == (fold.err # "") => PrintT(<<"REPLAY", ToJson([k |-> "generr", m |-> M, lines |-> lines, err |-> fold.err])>>)
 \* a First line at the very end of the file: the code silently ignores the open range (named deviation)
-EmitDangling == (~WfOnly /\ fold.pending # -1 /\ fold.err = "") => PrintT(<<"REPLAY", ToJson([k |-> "gen", m |-> M, lines |-> lines,
-          gc |-> Den(GcTable), vir |-> Den(VirTable), un |-> Den(UnTable),
+EmitDangling == (~WfOnly /\ fold.pending # -1 /\ fold.err = "") => PrintT(<<"REPLAY", ToJson([k |-> "gen", m |-> M, lines |-> lines, dangling |-> TRUE,
+          gc |-> Den(GcTable), vir |-> Den(VirTable), un |-> DenUn(UnTable),
           bidi |-> [cp \in U |-> IF KeyedSearch(BidiTable, cp) = 0 THEN "-" ELSE BidiTable[KeyedSearch(BidiTable, cp)].c],
           wm |-> [cp \in U |-> IF KeyedSearch(WmTable, cp) = 0 THEN -1 ELSE WmTable[KeyedSearch(WmTable, cp)].t]])>>)
-Emit == Complete => PrintT(<<"REPLAY", ToJson([k |-> "gen", m |-> M, lines |-> lines,
-          gc |-> Den(GcTable), vir |-> Den(VirTable), un |-> Den(UnTable),
+Emit == Complete => PrintT(<<"REPLAY", ToJson([k |-> "gen", m |-> M, lines |-> lines, dangling |-> FALSE,
+          gc |-> Den(GcTable), vir |-> Den(VirTable), un |-> DenUn(UnTable),
           bidi |-> [cp \in U |-> IF KeyedSearch(BidiTable, cp) = 0 THEN "-" ELSE BidiTable[KeyedSearch(BidiTable, cp)].c],
           wm |-> [cp \in U |-> IF KeyedSearch(WmTable, cp) = 0 THEN -1 ELSE WmTable[KeyedSearch(WmTable, cp)].t]])>>)
 =============================================================================
